@@ -140,10 +140,8 @@ pub fn main_clip(args: &[String]) -> i32 {
                     let describe = |what: &str, detail: Value| json!({"prop": "C18", "what": what, "detail": detail, "case": c, "embedding": emb.to_json(), "order": vs});
                     match r {
                         Err(msg) => {
-                            // exact ties + inexact snapping: known finding F2 territory; only exact embedding / no ties counts
-                            if ties == 0 || (ei == 0 && exact_snap) {
-                                failures.push(describe("clip panicked for some storage order", json!({"message": msg, "variant": k})));
-                            }
+                            // (since the repair of finding F2 a clip must not panic whatever the tie decisions)
+                            failures.push(describe("clip panicked for some storage order", json!({"message": msg, "variant": k})));
                         }
                         Ok(cellr) => {
                             let (ts, vol) = cell_summary(&cellr);
